@@ -706,6 +706,41 @@ impl SpannedExpr {
         Ok(())
     }
 
+    // Make the run-time width of every case expression the width the checker gave it:
+    // a selected arm may be an unsized constant (or, without require-mux-default, no arm
+    // may be selected), which would otherwise yield an unsized value where the checker
+    // promised a sized one.  Must only be called on expressions that passed the check.
+    pub fn fix_mux_widths<'a>(&mut self, widths: &'a HashMap<&'a str, WireWidth>, constants: &WireValues) {
+        match *self.expr {
+            Expr::BinOp(_, ref mut left, ref mut right) | Expr::Concat(ref mut left, ref mut right) => {
+                left.fix_mux_widths(widths, constants);
+                right.fix_mux_widths(widths, constants);
+            },
+            Expr::UnOp(_, ref mut inner) | Expr::BitSelect { from: ref mut inner, .. } => {
+                inner.fix_mux_widths(widths, constants);
+            },
+            Expr::Mux(ref mut options) => {
+                for option in options {
+                    option.condition.fix_mux_widths(widths, constants);
+                    option.value.fix_mux_widths(widths, constants);
+                }
+            },
+            Expr::InSet(ref mut left, ref mut lst) => {
+                left.fix_mux_widths(widths, constants);
+                for item in lst {
+                    item.fix_mux_widths(widths, constants);
+                }
+            },
+            Expr::Constant(_) | Expr::NamedWire(_) | Expr::Error => {},
+        }
+        if let Expr::Mux(_) = *self.expr {
+            if let Ok(WireWidth::Bits(width)) = self.get_width_and_check(widths, constants) {
+                let inner = self.clone();
+                *self.expr = Expr::BitSelect { from: inner, low: 0, high: width };
+            }
+        }
+    }
+
     pub fn referenced_wires<'a>(&'a self) -> HashSet<&'a str> {
         let mut result = HashSet::new();
         self.apply_to_all(&mut |item| {
